@@ -60,7 +60,7 @@ Std(free) ==
          KS(A, free) >>)
 
 (* ---- "free": all value trees of at most 3 nodes ---- *)
-Chars == {97, 39, 34, 92, 44, 40, 41, 32, 10}      \* a ' " \ , ( ) space newline
+Chars == {97, 39, 34, 92, 44, 40, 41, 32, 10, 110} \* a ' " \ , ( ) space newline n (n: the text of an escape)
 RECURSIVE StrUpTo(_)
 StrUpTo(n) == IF n = 0 THEN {<<>>} ELSE StrUpTo(n - 1) \cup {Append(s, c) : s \in {x \in StrUpTo(n - 1) : Len(x) = n - 1}, c \in Chars}
 BigStr == StrUpTo(StrLen)
@@ -104,10 +104,11 @@ Lists == { P1(HOSTS), P2(VARS, SIG), StdList, P1(VARS), P1(TASKS), P1(NAME), P2(
            P3(VARS, CKEY, A), P2(A, HOSTS), <<>>, C2(P1(HOSTS), P1(HOSTS)), HOSTS, P2(VARS, SIGEXCL),
            C2(P2(VARS, SIG), P1(VARS)), C2(P1(VARS), P2(VARS, CKEY)), P2(TASKS, A),
            C2(P2(VARS, CKEY), P2(VARS, SIG)), C2(P1(HOSTS), P1(TASKS)), P2(VARS, <<49>>), P2(HOSTS, <<48>>),
-           C2(P2(VARS, SIG), P2(HOSTS, A)), C2(StdList, P2(VARS, CKEY)), C2(P2(HOSTS, CKEY), P2(VARS, SIG)) }
+           C2(P2(VARS, SIG), P2(HOSTS, A)), C2(StdList, P2(VARS, CKEY)), C2(P2(HOSTS, CKEY), P2(VARS, SIG)),
+           P2(A, CKEY), C2(P2(VARS, SIG), P2(A, CKEY)), P1(A) }
 ListOpts  == { <<>> } \cup { <<KS(SIGEXCL, S(e))>> : e \in Lists }
 ChildOpts == { <<>>, <<KS(CKEY, S(A))>>, <<KS(CKEY, M(<<KS(A, S(A))>>))>>, <<E(IK(1), S(A))>> }
-TasksE    == <<KS(TASKS, L(<<M(<<KS(A, S(A))>>)>>))>>
+TasksE    == <<KS(TASKS, L(<<M(<<KS(A, S(A))>>)>>)), KS(A, M(<<KS(HOSTS, S(A)), KS(CKEY, I(1))>>))>>   \* a non-dynamic mapping too
 Table ==
     {M(<<KS(NAME, S(A))>> \o h \o <<KS(VARS, M(c1 \o x \o s \o c2))>> \o TasksE)
         : h \in HostsOpts, s \in SigOpts, x \in ListOpts,
